@@ -664,17 +664,21 @@ func (l *Gpos3_1) apply(ctx *Context, a, b int) int {
 	if a > 0 {
 		prevGlyph := seq[a-1] // TODO(voss): use ctx.Keep?
 		prev, ok := l.Cov[prevGlyph.GID]
-		if ok {
+		if ok && !rec.Entry.IsEmpty() {
 			prevRec := l.Records[prev]
-			seq[a].YOffset = prevGlyph.YOffset + prevRec.Exit.Y - rec.Entry.Y
+			if !prevRec.Exit.IsEmpty() {
+				seq[a].YOffset = prevGlyph.YOffset + prevRec.Exit.Y - rec.Entry.Y
+			}
 		}
 	}
 	if a < b-1 {
 		nextGlyph := seq[a+1] // TODO(voss): use ctx.Keep?
 		next, ok := l.Cov[nextGlyph.GID]
-		if ok {
+		if ok && !rec.Exit.IsEmpty() {
 			nextRec := l.Records[next]
-			seq[a].Advance = seq[a].XOffset + rec.Exit.X - nextGlyph.XOffset - nextRec.Entry.X
+			if !nextRec.Entry.IsEmpty() {
+				seq[a].Advance = seq[a].XOffset + rec.Exit.X - nextGlyph.XOffset - nextRec.Entry.X
+			}
 		}
 	}
 
